@@ -17,6 +17,8 @@ import Driver.SemB
 import Driver.SemC
 import Driver.SemK
 import Driver.Ex
+import Driver.TG
+import Driver.Misc
 import Driver.Load
 /-!
 Line-protocol driver `jsight-model` (DESIGN.md §12). One request per line on stdin, one reply per
@@ -187,6 +189,9 @@ def handle (line : String) : String :=
   | "semc" :: _ => DSemC.handle (restOf line)
   | "semk" :: _ => DSemK.handle (restOf line)
   | "ex" :: _ => DEx.handle line
+  | "tg" :: _ => DTG.handle line
+  | "ast" :: r => DMisc.ast r
+  | "rgx" :: r => DMisc.rgx r
   | _ => "bad-op"
 
 partial def loop (h : IO.FS.Stream) (out : IO.FS.Stream) : IO Unit := do
